@@ -445,7 +445,7 @@ def run(ctx):
                         n.id, (n.lineno, n.col_offset), canon(ans), pos, canon(fresh[k]), os.path.basename(fn)),
                         {'kind': 'history', 'file': fn if real_file else None, 'source': text,
                          'order': [sel[j] for j in order], 'failing_position': pos})
-            elif kept < ctx.pick(3, 6) and len(base.g.flows) < ctx.pick(600, 2500):
+            elif kept < ctx.pick(2, 6) and len(base.g.flows) < ctx.pick(600, 2500):
                 t = fd.history_case(base.g, hist)
                 if len(t) < 600000:
                     kept += 1
@@ -490,7 +490,7 @@ def run(ctx):
     ctx.rng.shuffle(api_progs)
     cov['api_differences'] = api_histories(ctx, api_progs[:ctx.pick(4, 30)], ctx.pick(2, 6))
 
-    cov['project_history_differences'] = project_histories(ctx, ctx.pick(3, 20), ctx.pick(6, 30))
+    cov['project_history_differences'] = project_histories(ctx, ctx.pick(2, 20), ctx.pick(6, 30))
     ctx.log('api histories done')
     # ---- (I) ---------------------------------------------------------------------------------------
     imports = ['Model.Layout', 'Model.FlowGraph', 'Model.Memo']
